@@ -86,8 +86,46 @@ def main():
     if len(seen) != 1:
         problems.append(dict(case='no_kwargs-mixed-layer',
                              outcomes=sorted(map(str, seen))))
+    # 3. systematic: every family of 2 and 3 two-parameter overloads over a
+    # small pool of parameter types (a diamond of host classes, `object`,
+    # and a lazy Lambda), positional and keyword call, every enumeration
+    # order of the layer
+    pool = dict(A=lambda: yaqltypes.PythonType(A), B=lambda: yaqltypes.
+                PythonType(B), C=lambda: yaqltypes.PythonType(C),
+                O=lambda: yaqltypes.PythonType(object),
+                L=lambda: yaqltypes.Lambda())
+    defs = {}
+    for tx in pool:
+        for tn in ('C', 'O', 'L'):
+            def h(x, n, _t=tx + tn):
+                return _t
+            h.__name__ = 'h_' + tx + tn
+            h = specs.parameter('x', pool[tx]())(h)
+            h = specs.parameter('n', pool[tn]())(h)
+            defs[h.__name__] = h
+    names = sorted(defs)
+    fams = list(itertools.combinations(names, 2)) + \
+        list(itertools.combinations(names, 3))
+    base = yaql.create_context()
+    for fam in fams:
+        for expr in ('hoo($, $)', 'hoo($, n => $)'):
+            seen = set()
+            for perm in itertools.permutations(fam):
+                ctx = Ordered(base)
+                for f in fam:
+                    ctx.register_function(defs[f], name='hoo')
+                Ordered.order = list(perm)
+                seen.add(outcome(ctx, engine, expr, C()))
+            Ordered.order = None
+            if len(seen) != 1:
+                problems.append(dict(case='family', overloads=list(fam),
+                                     expression=expr,
+                                     outcomes=sorted(map(str, seen))))
+                break
+        if len(problems) >= 5:
+            break
     print(json.dumps(dict(status='failed' if problems else 'ok',
-                          problems=problems)))
+                          families=len(fams), problems=problems)))
 
 
 main()
